@@ -206,7 +206,26 @@ func runC12(o *hx.Out, r *hx.Rand, thorough bool) {
 				for _, unary := range []bool{true, false} {
 					desc := map[string]interface{}{"transport": "inprocgrpc", "registry": reg2json(reg[:k]), "registered_later": len(reg) - k, "unary": unary, "name": n}
 					o.Begin(desc)
-					obs := callName(ipc, unary, n, l)
+					var via grpc.ClientConnInterface = ipc
+					if it%3 == 2 {
+						// the call is made under an alias that client interceptors re-route to the name: what runs
+						// is decided by the name that reaches the channel
+						target := n
+						via = grpchan.InterceptClientConn(ipc,
+							func(ctx context.Context, method string, req, reply interface{}, cc *grpc.ClientConn, invoker grpc.UnaryInvoker, opts ...grpc.CallOption) error {
+								return invoker(ctx, target, req, reply, cc, opts...)
+							},
+							func(ctx context.Context, sd *grpc.StreamDesc, cc *grpc.ClientConn, method string, streamer grpc.Streamer, opts ...grpc.CallOption) (grpc.ClientStream, error) {
+								return streamer(ctx, sd, cc, target, opts...)
+							})
+						desc["called_as"] = "/alias.Svc/Alias, re-routed by a client interceptor to the name"
+					}
+					obs := ""
+					if via != grpc.ClientConnInterface(ipc) {
+						obs = callName(via, unary, "/alias.Svc/Alias", l)
+					} else {
+						obs = callName(ipc, unary, n, l)
+					}
 					desc["observed"] = obs
 					if obs == "OPanic" {
 						o.Violate("in-process channel panicked on a method name", desc, "panic", "a status error")
